@@ -228,7 +228,12 @@ def post_prefix(a, b):
     exp = len(a) <= len(b) and a == b[:len(a)]
     ca, cb = [ref_comp(*c) for c in a], [ref_comp(*c) for c in b]
     for fname, fa, fb in (('list/list', ca, cb), ('wire/list', ref_wire(a), cb), ('str/wire', ref_canonical_uri(a), ref_wire(b)),
-                          ('memoryview/str', [memoryview(c) for c in ca], ref_canonical_uri(b))):
+                          ('memoryview/str', [memoryview(c) for c in ca], ref_canonical_uri(b)),
+                          # every accepted list form: URI-text components and mixed lists on either side
+                          ('list-str/list', [ref_canonical_comp_uri(t, v) for t, v in a], cb),
+                          ('list/list-mixed', ca, [ref_canonical_comp_uri(t, v) if i % 2 else ref_comp(t, v)
+                                                   for i, (t, v) in enumerate(b)]),
+                          ('tuple-str/str', tuple(ref_canonical_comp_uri(t, v) for t, v in a), ref_canonical_uri(b))):
         r = _call(N.is_prefix, fa, fb)
         if r != ('ok', exp):
             bad.append(('C09:is_prefix', f'is_prefix[{fname}]({ref_canonical_uri(a)}, {ref_canonical_uri(b)}) -> {r}, '
